@@ -80,6 +80,8 @@ func smallScenarios() []smallScenario {
 		"truncate " + h("/lf") + " 0", "chmod " + h("/ld") + " 448", "symlink " + h("../e") + " " + h("/d/up"), "stat " + h("/d/up/f"),
 		// the current directory entered through a link; links whose whole target is "." or ".."
 		"chdir " + h("/ld"), "getwd", "mkdir " + h("n2") + " 493", "stat " + h("../e"), "symlink " + h("..") + " " + h("/d/dd"), "stat " + h("/d/dd/e"),
+		// … with a remainder longer than the part of the path left of the link (the iterator must restart at the root)
+		"stat " + h("/d/dd/home"),
 		"symlink " + h(".") + " " + h("/d/here"), "readdir " + h("/d/here"),
 		// operands BELOW a regular file
 		"mkdirall " + h("/d/f/x") + " 493", "mkdir " + h("/d/f/x") + " 493", "writefile " + h("/d/f/x") + " " + h("X") + " 420", "remove " + h("/d/f/x"),
